@@ -91,6 +91,10 @@ def c05_name_error_not_recalculated_when_table_appears(events, violation):
         name = a[2] if a[0] == "RenameTable" else a[1]
         if name in mentioned:
           return True
+      elif a[0] == "CreateViewSection" and a[4] is not None and "NameError" in violation.get("detail", ""):
+        # a summary table comes into being (its id derives from the source's): same thing
+        if any("_summary" in m for m in mentioned):
+          return True
   return False
 
 
